@@ -106,6 +106,10 @@ for _k in ('C01', 'C02', 'C03', 'C04', 'C05', 'C07', 'C10', 'C11', 'C13', 'C14',
     PROPS[_k]['tie_defs'] = PROPS[_k].get('tie_defs', []) + [r'^(H|LB|LC)\.']
     PROPS[_k]['extra_modules'] = PROPS[_k].get('extra_modules', []) + ['Daac.Props.TieBuild']
     PROPS[_k].setdefault('trusted_extra', ['the Rust-to-Lean translator tools/rs2lean.py and its preludes lean/Daac/Gen/Prelude.lean, PreludeBuild.lean (meaning of the std items; fuel for loops); the equalities generated = model are theorems (Daac/Props/Tie.lean, TieBuild.lean)'])
+# serialisation side: every Serializable impl and both entry points (generated S.*; tools/ser2lean.py)
+PROPS['C09']['tie_defs'] = PROPS['C09'].get('tie_defs', []) + [r'^S\.']
+PROPS['C09']['extra_modules'] = PROPS['C09'].get('extra_modules', []) + ['Daac.Props.TieSer']
+PROPS['C09']['trusted_extra'] = ['the Rust-to-Lean translator for the serialisation code tools/ser2lean.py and its prelude lean/Daac/Gen/PreludeSer.lean (meaning of to_le_bytes / from_le_bytes / slicing / NonZeroU32::new; a value type is a `Ser V` record); the equalities generated = model are theorems (Daac/Proofs/TieS.lean, Daac/Props/TieSer.lean)']
 for _k, (_s, _r) in _NOTES.items():
     PROPS[_k]['statement'] = _s
     PROPS[_k]['residue'] = _r
